@@ -807,21 +807,26 @@ fn child_main(a: &[String]) -> ! {
         // a developer replaying a seed with logging switched on: a TRACE-level subscriber whose output is discarded
         let _ = tracing_subscriber::fmt().with_max_level(tracing::Level::TRACE).with_writer(std::io::sink).try_init();
     }
+    // "pre" mode (a process of its own): a complete run of ANOTHER preset of the same harness family happens first in
+    // this fresh process; what it leaves behind (caches, counters, thread-locals) must not change the run that follows
+    if a.get(3).map(|x| x == "pre").unwrap_or(false) {
+        if let Some(def) = HARNESSES.iter().find(|d| d.name == h) {
+            if def.presets.len() > 1 {
+                let i = def.presets.iter().position(|x| *x == p).unwrap_or(0);
+                let other = def.presets[(i + 1) % def.presets.len()];
+                let _ = run_caught(h, other, seed);
+                let r4 = run_caught(h, p, seed);
+                emit("R4", &r4);
+            }
+        }
+        meta_lines();
+        println!("END");
+        std::process::exit(0);
+    }
     let r1 = run_caught(h, p, seed);
     emit("R1", &r1);
     let r2 = run_caught(h, p, seed);
     emit("R2", &r2);
-    // R4: a complete run of ANOTHER preset of the same harness family happens first on this thread; what it leaves
-    // behind (caches, counters, thread-locals) must not change this run
-    if let Some(def) = HARNESSES.iter().find(|d| d.name == h) {
-        if def.presets.len() > 1 {
-            let i = def.presets.iter().position(|x| *x == p).unwrap_or(0);
-            let other = def.presets[(i + 1) % def.presets.len()];
-            let _ = run_caught(h, other, seed);
-            let r4 = run_caught(h, p, seed);
-            emit("R4", &r4);
-        }
-    }
     if let Some(older) = make_bystander(h, p, seed) {
         BYSTANDER.with(|b| *b.borrow_mut() = Some(older));
         let r3 = run_caught(h, p, seed);
@@ -1177,7 +1182,14 @@ fn compare(outs: &[(Env, ChildOut)]) -> Vec<Finding> {
 
 fn run_case(shim: &PathBuf, c: &Case, es: &[Env]) -> CaseReport {
     let args = vec!["--child".to_string(), c.h.to_string(), c.p.to_string(), c.seed.to_string()];
-    let outs: Vec<(Env, ChildOut)> = es.iter().map(|e| (e.clone(), run_child(shim, &args, e))).collect();
+    let mut outs: Vec<(Env, ChildOut)> = es.iter().map(|e| (e.clone(), run_child(shim, &args, e))).collect();
+    // one more process in the first environment: the same run right after a complete run of another preset
+    {
+        let mut pre_args = args.clone();
+        pre_args.push("pre".to_string());
+        let pre = run_child(shim, &pre_args, &es[0]);
+        outs[0].1.r4 = pre.r4;
+    }
     let findings = compare(&outs);
     let c0 = &outs[0].1;
     let mut digest = 0xcbf29ce484222325u64;
